@@ -10,7 +10,7 @@ def table(pred):
         m = json.load(open(f'/verif/seeded/{d}/meta.json'))
         t += f"| `{d}` | {', '.join(m['caught_by_quick']) or '–'} | {', '.join(m['missed_by_quick']) or '–'} | {m['observed'].replace('|', '/')[:260]} |\n"
     return t
-for name, pred in [('round1', lambda d: '-r2m' not in d and '-r3m' not in d and '-r4m' not in d and '-r5m' not in d and '-s' not in d), ('round2', lambda d: '-r2m' in d), ('round3', lambda d: '-r3m' in d), ('round4', lambda d: '-r4m' in d), ('round5', lambda d: '-r5m' in d), ('sweep', lambda d: '-s' in d)]:
+for name, pred in [('round1', lambda d: '-r2m' not in d and '-r3m' not in d and '-r4m' not in d and '-r5m' not in d and '-r6m' not in d and '-s' not in d), ('round2', lambda d: '-r2m' in d), ('round3', lambda d: '-r3m' in d), ('round4', lambda d: '-r4m' in d), ('round5', lambda d: '-r5m' in d), ('round6', lambda d: '-r6m' in d), ('sweep', lambda d: '-s' in d)]:
     s = re.sub(rf'<!-- TABLE:{name} -->.*?<!-- /TABLE:{name} -->', lambda m: f'<!-- TABLE:{name} -->\n' + table(pred) + f'<!-- /TABLE:{name} -->', s, flags=re.S)
 open('/verif/DESIGN.md', 'w').write(s)
 print('tables regenerated')
